@@ -199,7 +199,7 @@ def name_return(sig, var="r"):
     while i < len(sig):
         if mask[i]:
             if sig.startswith("->", i):
-                if depth == 0:
+                if depth == 0 and arrow is None:
                     arrow = i
                 i += 2
                 continue
